@@ -302,7 +302,7 @@ def r6_nan_policy(rep, facts):
 def r7_widening(rep, facts, rid='C11/R7'):
     R = rep.rule(rid, 'a narrow number is widened exactly before it is stored: every Serializer::serialize_f32 / i8..i32 / u8..u32 that forwards to serialize_f64 / '
                  'serialize_i64 hands over the same number (for f32 the double with the same value, not one re-read from a decimal rendering).  Decided by evaluating the '
-                 'methods on boundary values with the wide method recorded', floor=10)
+                 'methods on boundary values with the wide method recorded', floor=7)
     from .den import RecInterp, EvalPanic
     import struct
 
@@ -350,7 +350,8 @@ def r7_widening(rep, facts, rid='C11/R7'):
                 continue
             n += 1
             rep.check(R, f'{imp.get("self_ty")}|{meth}', not bad, f'{len(samples)} values handed to {wide} unchanged', f'`{d}`: {"; ".join(bad[:3])}', facts.loc(b))
-    rep.check(R, 'count', n >= 9, f'{n} widening methods evaluated', f'only {n} widening serializer methods found')
+    want = 12 if 'toml' in facts.crates else 6
+    rep.check(R, 'count', n >= want, f'{n} widening methods evaluated', f'only {n} widening serializer methods found (at least {want} expected in this configuration)')
 
 
 def rules(rep, facts):
